@@ -378,3 +378,115 @@ for _t in TYPES:
                                     "cdd.shared.defaults_utils.needs_quoting", "cdd.shared.defaults_utils.ast_parse_fix"],
            assumes=["SOLVER-ENUMERATED over a finite alphabet: once a path has fixed the hole the emitter and parser run untraced, fuel-instrumented"],
            bound="emit (then parse back) into each of 9 formats an IR whose parameter type is %r damaged the same way (%s), with no / int / str default" % (_t, _nh))(_typehole_emit(_t))
+
+
+# work.*: "time proportional to the size of the input" as a count of function ACTIVATIONS in the doctrans modules against the number of input nodes ------------
+import types as _types  # noqa: E402
+
+WORK = {"n": 0}
+
+
+def _count_calls(mod):
+    """wrap every function and method defined in `mod` with an activation counter (idempotent)"""
+    def wrap(fn):
+        if getattr(fn, "__chx_counted__", False):
+            return fn
+
+        def counted(*a, **kw):
+            WORK["n"] += 1
+            return fn(*a, **kw)
+
+        counted.__chx_counted__ = True
+        counted.__name__ = getattr(fn, "__name__", "f")
+        counted.__wrapped__ = fn
+        return counted
+
+    for name, obj in list(vars(mod).items()):
+        if isinstance(obj, _types.FunctionType) and obj.__module__ == mod.__name__:
+            setattr(mod, name, wrap(obj))
+        elif isinstance(obj, type) and obj.__module__ == mod.__name__:
+            for mname, meth in list(vars(obj).items()):
+                if isinstance(meth, _types.FunctionType):
+                    setattr(obj, mname, wrap(meth))
+
+
+def nested_module(depth, width):
+    """`width` top-level functions, the first one containing `depth`-1 further levels of nested, documented functions"""
+    s = ""
+    for i in range(depth):
+        ind = "    " * i
+        s += ind + "def f%d(a%d=1):\n" % (i, i) + ind + '    """\n' + ind + "    Doc %d.\n\n" % i + ind + "    :param a%d: the a\n" % i + ind + '    """\n'
+    s += "    " * depth + "return 1\n"
+    for i in range(depth - 1, 0, -1):
+        s += "    " * i + "return f%d()\n" % i
+    for j in range(width):
+        s += "\n\ndef g%d(b=2):\n    \"\"\"\n    G doc.\n\n    :param b: the b\n    \"\"\"\n    return b\n" % j
+    return s
+
+
+_WROOT = [None]
+_WN = [0]
+
+
+def doctrans_work(depth, width, style, type_annotations, times=1):
+    import atexit
+    import contextlib
+    import io
+    import shutil
+    import tempfile
+
+    import cdd.compound.doctrans_utils as dtu
+    import cdd.shared.ast_cst_utils as acu
+    from cdd.compound.doctrans import doctrans
+
+    _count_calls(dtu)
+    _count_calls(acu)
+    if _WROOT[0] is None:
+        _WROOT[0] = tempfile.mkdtemp(prefix="chx_c11_")
+        atexit.register(shutil.rmtree, _WROOT[0], True)
+    _WN[0] += 1
+    fn = os.path.join(_WROOT[0], "m%d.py" % _WN[0])
+    src = nested_module(depth, width)
+    with open(fn, "wt") as f:
+        f.write(src)
+    fmt = ("rest", "google", "numpydoc")[0]
+    for k in (1, 2):
+        if style == k:
+            fmt = ("rest", "google", "numpydoc")[k]
+    try:
+        for t in range(times):
+            with open(fn, "rt") as f:
+                size = sum(1 for _ in ast.walk(ast.parse(f.read())))
+            WORK["n"] = 0
+            with contextlib.redirect_stdout(io.StringIO()), contextlib.redirect_stderr(io.StringIO()):
+                try:
+                    doctrans(filename=fn, docstring_format=fmt, type_annotations=type_annotations, no_word_wrap=True)
+                except Exception:
+                    pass
+            if WORK["n"] > WORK_FACTOR * size + 32:
+                return "application %d of doctrans on a module of %d AST nodes (functions nested %d deep) made %d function activations in the doctrans modules: more than %d*size+32" % (
+                    t + 1, size, depth, WORK["n"], WORK_FACTOR)
+    finally:
+        if os.path.exists(fn):
+            os.remove(fn)
+    return ""
+
+
+WORK_FACTOR = 2
+
+
+def doctrans_work_replay(depth, width, style, type_annotations, times=1):
+    return doctrans_work(depth, width, style, type_annotations, times)
+
+
+import os  # noqa: E402
+
+for _st in range(3):
+    ob("C11", "work.doctrans.nest.%s" % ("rest", "google", "numpydoc")[_st], {"depth": R(1, 7), "width": R(0, 1), "style": R(_st, _st), "type_annotations": BOOL, "times": R(1, 1)}, T=1500, tpath=120,
+       funcs=["cdd.compound.doctrans.doctrans", "cdd.compound.doctrans_utils.DocTrans", "cdd.compound.doctrans_utils.doctransify_cst", "cdd.shared.ast_cst_utils.*"],
+       assumes=["work measure: activations of the functions and methods defined in cdd.compound.doctrans_utils and cdd.shared.ast_cst_utils (counting wrappers installed at check time); "
+                "'proportional to the size of the input' is asserted as activations <= %d * (AST nodes of the input) + 32 (the unchanged tree needs < 1 per node)" % WORK_FACTOR],
+       bound="doctrans on generated modules: documented functions nested 1..7 deep plus 0..1 sibling functions, target style %s, --type-annotations on/off (solver-enumerated); "
+             "thorough: applied 2..3 times to its own output" % ("rest", "google", "numpydoc")[_st])(doctrans_work)
+ob("C11", "work.doctrans.nest.again", {"depth": R(1, 7), "width": R(0, 1), "style": R(0, 2), "type_annotations": BOOL, "times": R(2, 3)}, T=3000, tpath=200, tier="thorough",
+   funcs=["cdd.compound.doctrans.doctrans"], bound="as work.doctrans.nest, doctrans applied 2..3 times to its own output")(doctrans_work)
